@@ -122,6 +122,12 @@ def check_N(out, tag, x, scale, q, qtype, idem=None, want_axis="any", mixed=Fals
             f"{tag}/dequantize/value",
             f"{int(bd.sum())} elements: scale*code={prod.reshape(-1)[i].item()!r} dequantized={d64.reshape(-1)[i].item()!r}",
         )
+    # the dequantized tensor belongs to the caller: updating it in place must not change what the quantized tensor holds
+    if d.numel() and not d.is_inference():
+        d.zero_()
+        d2 = cut(q.dequantize)
+        if isinstance(d2, Raised) or not torch.equal(d2.to(torch.float64).nan_to_num(), d64.nan_to_num()):
+            out.fail(f"{tag}/dequantize/changed-by-caller-update", "a second dequantize() differs after the first result was updated in place")
     half = (lo + hi) / 2
     stats = {
         "over": int(over.sum()),
